@@ -254,6 +254,9 @@ CustomTypes == {"aol.CreateTopic", "aol.AddWriter", "aol.DeleteWriter", "aol.Add
                 "pnft.CreateDenom", "pnft.UpdateDenom", "pnft.DeleteDenom", "pnft.TransferDenom",
                 "pnft.Mint", "pnft.Transfer", "pnft.Burn"}
 
+\* abstract identifiers that stand for strings containing NUL, the x/nft store-key delimiter (harness: "a\0b", "b\0c")
+NulIds == {"nz", "iz"}
+
 \* GetSigners of a message, in order
 Signers(m) ==
     CASE m.type \in {"aol.CreateTopic", "aol.AddWriter", "aol.DeleteWriter"} -> <<m.owner>>
@@ -270,8 +273,10 @@ Stateless(m) ==
             IF m.doc.id = "" \/ m.doc.id # m.did \/ ~DocValid(m.doc) THEN "did/4"
             ELSE IF m.proof.key = "none" THEN "did/6" ELSE ""
       [] m.type = "did.Deactivate" -> IF m.proof.key = "none" THEN "did/6" ELSE ""
-      [] m.type \in {"pnft.CreateDenom"} -> IF m.id = "" \/ m.name = "" \/ m.symbol = "" THEN "undefined/1" ELSE ""
-      [] m.type = "pnft.Mint" -> IF m.name = "" THEN "undefined/1" ELSE ""
+      [] m.type \in {"pnft.CreateDenom"} -> IF m.id = "" \/ m.id \in NulIds \/ m.name = "" \/ m.symbol = "" THEN "undefined/1" ELSE ""
+      [] m.type \in {"pnft.UpdateDenom", "pnft.DeleteDenom", "pnft.TransferDenom"} -> IF m.id \in NulIds THEN "undefined/1" ELSE ""
+      [] m.type = "pnft.Mint" -> IF m.name = "" \/ m.denom \in NulIds \/ m.id \in NulIds THEN "undefined/1" ELSE ""
+      [] m.type \in {"pnft.Transfer", "pnft.Burn"} -> IF m.denom \in NulIds \/ m.id \in NulIds THEN "undefined/1" ELSE ""
       [] m.type \in {"bank.Send", "vesting.Create"} -> IF m.amt <= 0 THEN "sdk/10" ELSE ""
       [] m.type = "bank.MultiSend" -> IF m.amt <= 0 THEN "sdk/10" ELSE ""
       [] m.type \in {"authz.Grant", "authz.Revoke"} -> IF m.granter = m.grantee THEN "authz/7" ELSE ""
@@ -389,8 +394,9 @@ EndBlock ==
     /\ phase' = "ended"
     /\ bal' = [bal EXCEPT ![BurnAcct] = [d \in Denoms |-> bal[BurnAcct][d] - BurnAmt(d)]]
     /\ supply' = [d \in Denoms |-> supply[d] - BurnAmt(d)]
+    /\ exists' = IF \E d \in Denoms : BurnAmt(d) > 0 THEN exists \cup {BurnMod} ELSE exists   \* the module account is created on first use
     /\ act' = [name |-> "EndBlock", halted |-> FALSE, invOk |-> TRUE]
-    /\ UNCHANGED <<height, custom, vest, exists, rest, grants>>
+    /\ UNCHANGED <<height, custom, vest, rest, grants>>
 
 \* Commit, then BeginBlock of the next height: x/mint mints `minted` umed to the fee collector,
 \* x/distribution sweeps the fee collector into its own (untracked) module account.
@@ -418,12 +424,16 @@ RestartBegin(minted) ==
 \* Commit, export genesis, InitChain of the export on a fresh application, BeginBlock there.
 \* Export and import are written like x/*/genesis.go in Genesis.tla; here the round trip must be the identity
 \* on the custom modules' state.
+\* (the x/nft supply counter is recomputed by the re-mint: an entry that had dropped to zero is not re-created)
+NormSupply(ps) == [d \in {x \in DOMAIN ps : ps[x] > 0} |-> ps[d]]
+
 ExportImportBegin(minted) ==
     /\ phase = "ended"
     /\ phase' = "in" /\ height' = height + 1
     /\ NextBlockBank(minted)
     /\ act' = [name |-> "ExportImportBegin", minted |-> minted, exportOk |-> TRUE, exportTwiceEqual |-> TRUE, validateOk |-> TRUE,
                importOk |-> TRUE, viewsEqual |-> TRUE, reExportEqual |-> TRUE]
-    /\ UNCHANGED <<custom, grants>>
+    /\ pnSupply' = NormSupply(pnSupply)
+    /\ UNCHANGED <<aolOwners, aolTopics, aolWriters, aolRecords, didReg, pnDenoms, pnTokens, pnIndex, grants>>
 
 =============================================================================
